@@ -303,9 +303,33 @@ class World:
 
     def blocking_rows_are_deleted_too(self, p):
         """after the strict backend refused `DELETE p`: is every row that still references p (entity tables only) an object
-        that the same flush deletes as well (marked_to_delete, later in the queue)?"""
+        that the same flush deletes as well (marked_to_delete, later in the queue) AND that Pony's object layer is not
+        supposed to have queued before p?  A row that p's deletion CASCADES to must have been queued (deleted) before p
+        by Entity._delete_, unless the rows reference each other in a cycle (then no order of DELETEs exists)."""
         cache = self.db._get_cache()
         con = cache.connection
+        def row_refs(o):
+            """objects (marked_to_delete, by raw pk) that the database row of o references"""
+            out = []
+            for attr in o.__class__._attrs_with_columns_:
+                if not attr.reverse: continue
+                cur = sqlite3.Cursor(con)
+                cur.execute('SELECT %s FROM "%s" WHERE %s' % (', '.join('"%s"' % c for c in attr.columns), o.__class__._table_,
+                            ' AND '.join('"%s" = ?' % c for c in o.__class__._pk_columns_)), list(rawpk(o)))
+                row = cur.fetchone()
+                if row is None or any(v is None for v in row): continue
+                E3 = attr.reverse.entity
+                t = next((x for x in cache.objects if isinstance(x, E3) and rawpk(x) == tuple(row)), None)
+                if t is not None: out.append(t)
+            return out
+        def reaches(a, b):
+            seen = []; todo = [a]
+            while todo:
+                x = todo.pop()
+                for y in row_refs(x):
+                    if y is b: return True
+                    if y not in seen and y._status_ == 'marked_to_delete': seen.append(y); todo.append(y)
+            return False
         found = 0
         for E2 in self.E:
             for attr in E2._attrs_with_columns_:
@@ -319,6 +343,7 @@ class World:
                     found += 1
                     o2 = next((o for o in cache.objects if o.__class__ is E2 and rawpk(o) == pk2), None)
                     if o2 is None or o2._status_ != 'marked_to_delete': return False
+                    if attr.reverse.cascade_delete and not reaches(p, o2): return False     # the cascade child should have gone first
         return found > 0
 
 # ---------------------------------------------------------------- the engine's own orderability analysis
